@@ -98,10 +98,12 @@ fn eval_npy(_ctx: &Ctx, case: &NpyCase) -> Verdict {
     let last: Vec<u8> = bytes[bytes.len() - item..].to_vec();
     for extra in 1..=16usize {
         let r = crate::engine::splitmix64(case.seed ^ (extra as u64) << 32);
-        let fills: [Vec<u8>; 3] = [
+        let fills: [Vec<u8>; 5] = [
             vec![0u8; extra],
             (0..extra).map(|i| (r >> ((i % 8) * 8)) as u8 | 1).collect(),
             last.iter().cycle().take(extra).copied().collect(),
+            vec![b'\n'; extra],
+            vec![b' '; extra],
         ];
         for (k, fill) in fills.iter().enumerate() {
             let mut ext = bytes.clone();
@@ -301,7 +303,8 @@ fn eval_text(ctx: &Ctx, case: &TextCase) -> Verdict {
 #[derive(Clone, Debug, Serialize, Deserialize)]
 pub enum CliDamage {
     NpyTruncate { file: NpyCase, cut: u16, delicate: bool },
-    NpyExtend { file: NpyCase, extra: usize },
+    /// `fill`: 0 = copy of the last value, 1 = zeros, 2 = line feeds, 3 = spaces, 4 = CR LF pairs, 5 = tabs
+    NpyExtend { file: NpyCase, extra: usize, #[serde(default)] fill: u8 },
     Text(TextCase),
 }
 
@@ -315,7 +318,7 @@ fn cli_strategy() -> impl Strategy<Value = CliCase> {
     (
         prop_oneof![
             3 => (npy_strategy(), any::<u16>(), any::<bool>()).prop_map(|(file, cut, delicate)| CliDamage::NpyTruncate { file, cut, delicate }),
-            2 => (npy_strategy(), 1usize..=16).prop_map(|(file, extra)| CliDamage::NpyExtend { file, extra }),
+            3 => (npy_strategy(), 1usize..=16, 0u8..6).prop_map(|(file, extra, fill)| CliDamage::NpyExtend { file, extra, fill }),
             3 => text_strategy().prop_map(CliDamage::Text),
         ],
         any::<bool>(),
@@ -338,11 +341,19 @@ fn eval_cli(ctx: &Ctx, case: &CliCase) -> Verdict {
             };
             (bytes[..cut].to_vec(), format!("npy prefix of {cut}/{} bytes ({:?}, shape {:?})", bytes.len(), file.source, file.shape), "npy-truncated")
         }
-        CliDamage::NpyExtend { file, extra } => {
+        CliDamage::NpyExtend { file, extra, fill } => {
             let (mut bytes, item) = npy_file(file)?;
             let last: Vec<u8> = bytes[bytes.len() - item..].to_vec();
-            bytes.extend(last.iter().cycle().take(*extra));
-            (bytes, format!("npy extended by {extra} bytes ({:?}, shape {:?})", file.source, file.shape), "npy-extended")
+            let pattern: Vec<u8> = match fill {
+                0 => last,
+                1 => vec![0],
+                2 => vec![b'\n'],
+                3 => vec![b' '],
+                4 => vec![b'\r', b'\n'],
+                _ => vec![b'\t'],
+            };
+            bytes.extend(pattern.iter().cycle().take(*extra));
+            (bytes, format!("npy extended by {extra} bytes of fill kind {fill} ({:?}, shape {:?})", file.source, file.shape), "npy-extended")
         }
         CliDamage::Text(t) => match damaged_text(t) {
             Some((text, what)) => (text.into_bytes(), format!("text with {what}"), "text-edited"),
@@ -382,7 +393,7 @@ pub fn check(ctx: &Ctx) -> Check {
     let parts: Vec<Box<dyn Part>> = vec![
         Box::new(RandomPart {
             name: "npy-faults",
-            rule: "valid npy files from sfs's writer and from the numpy-layout writer (all 10 dtypes, both byte orders, versions 1/2/3, 1..5 axes, >=1 element): EVERY truncation offset 0..len-1, every extension by 1..16 bytes (zeros / random / copy of the last value), and value counts off by whole values are fed to Array::read_npy, which must return Err (no Ok, no panic); the undamaged file must be accepted; non-trivial = the sweep contains cuts at a value boundary, in the padding or in the header-length field (always true); distinct by file",
+            rule: "valid npy files from sfs's writer and from the numpy-layout writer (all 10 dtypes, both byte orders, versions 1/2/3, 1..5 axes, >=1 element): EVERY truncation offset 0..len-1, every extension by 1..16 bytes (zeros / random / copy of the last value / line feeds / spaces), and value counts off by whole values are fed to Array::read_npy, which must return Err (no Ok, no panic); the undamaged file must be accepted; non-trivial = the sweep contains cuts at a value boundary, in the padding or in the header-length field (always true); distinct by file",
             cases: ctx.tier.pick(1000, 50_000),
             strategy: Box::new(|| npy_strategy().boxed()),
             eval: Box::new(eval_npy),
